@@ -1225,6 +1225,12 @@ class Evaluator(object):
             if short == 'isinstance' and len(a) == 2:
                 if isinstance(a[0], Obj) and isinstance(a[1], Ref) and isinstance(a[1].target, Class):
                     return Bool(a[0].cls is a[1].target)
+                if isinstance(a[0], Rat) and isinstance(a[1], Ref) and isinstance(a[1].target, Ext) and a[0].as_fraction() is not None:
+                    fr = a[0].as_fraction()
+                    if a[1].target.name == 'builtins.int':
+                        return Bool(fr.denominator == 1)
+                    if a[1].target.name == 'builtins.float':
+                        return Bool(fr.denominator != 1)
                 return alg.opaque('isinstance', (argkey(a[0]), argkey(a[1])))
             if short in ('min', 'max', 'sum', 'sorted', 'divmod', 'all', 'any', 'bool', 'zip', 'enumerate', 'print', 'repr', 'format'):
                 if short == 'print':
